@@ -8,13 +8,13 @@ CHECKS = {
  "C01": dict(technique="reference-interpreter monitor over exhaustive small programs and seeded typed programs (differential, trace-observing)",
              text="Every program in an exhaustively enumerated small grammar and in a seeded family of typed random programs is run on the real EVAL next to an independent reference interpreter; result, error class, ordered trace! effects and final globals must agree. Held on the programs executed, nothing more.",
              note="trusts the harness reference interpreter (refmal) as the reading of the mal guide + README; error message text is not compared", ref="5/C01"),
- "C02": dict(technique="snapshot-invariant monitor after every step (successful or failed) of generated operation histories, incl. boundary indices + Go race detector on shared-parent derivations",
+ "C02": dict(technique="snapshot-invariant monitor after every step (successful or failed) of generated operation histories, incl. boundary indices and binary values + Go race detector on shared-parent derivations",
              text="After every step of generated histories of collection operations every earlier binding is re-read and compared with the snapshot taken when it was bound; a concurrent part derives from shared parents under -race; values seen through closures (captured before a re-binding let, collected over the iterations of a tail loop) must stay what was captured; a catch variable named like an existing binding must not overwrite it.",
              note="canonical comparison by the harness value model; race detector sees only executed interleavings", ref="5/C02"),
  "C03": dict(technique="reference-model monitor for try/catch/finally with identity checks on thrown values and Go errors",
              text="Generated nests of try/catch/finally with non-self-evaluating thrown objects, Go errors returned or panicked by harness builtins; result/error/trace compared with the reference interpreter, errors.Is and ErrorValue checked from Go; thrown objects include nil/false/empty values; builtins registered as plain Go function values fail and panic (also with Go runtime errors) inside try bodies.",
              note="trusts refmal's try semantics written from the property statement", ref="5/C03"),
- "C04": dict(technique="crash sentinel (recover + child-process death attribution) over enumerated malformed ASTs and builtin x argument tuples (incl. JSON/source strings, zero-value collections), live and cancelled contexts",
+ "C04": dict(technique="crash sentinel (recover + child-process death attribution) over enumerated malformed ASTs and builtin x argument tuples (incl. JSON/source strings, zero-value collections), failing catch handlers (thrown value kinds x handler tails x contexts), live and cancelled contexts",
              text="Every enumerated malformed special form, builtin call tuple and Go-built AST is evaluated under recover() in a child process, directly, wrapped in try/catch, inside a future and under an already cancelled context; any escaping panic is a violation; function values of 26 provenances (with-meta, reader metadata, eval-built, held in atoms/maps, builtins) are applied in 51 ways (direct, apply, map, swap!, reduce, defmacro+call, macroexpand, future-call, memoize, partial, comp, threading, update).",
              note="recursion bounded by construction; builtins with external effects (readline, slurp of devices, setenv) excluded", ref="5/C04"),
  "C05": dict(technique="crash/hang sentinel over exhaustive token soups, truncated repository sources and hostile random texts through 9 reader entry points, concurrent first readings of fresh names (8 goroutines, compared with reading alone), plus Go's coverage-guided fuzzer on the same entry points",
@@ -32,7 +32,7 @@ CHECKS = {
  "C09": dict(technique="linearizability checking (porcupine) of client-boundary histories + Go race detector + parked-hook lost-update scenarios + bounded-progress watchdog",
              text="Many short concurrent histories of deref/reset!/swap!/print on shared atoms, recorded at the EVAL boundary with unique written values, are checked against a sequential register model; hooks park a swap! mid-update (also: another writer lands, the parked evaluation is cancelled, the atom must stay usable); all under -race.",
              note="porcupine timeout = inconclusive; race detector sees executed interleavings only", ref="5/C09"),
- "C10": dict(technique="rule-based history checker (R1-R8) over recorded future histories + parked-hook windows + Go race detector",
+ "C10": dict(technique="rule-based history checker (R1-R8) over recorded future histories (operations through every handle the language yields for one future) + parked-hook windows + Go race detector",
              text="Histories of deref/done?/cancelled?/cancel against bodies that complete, throw, sleep or ignore cancellation are recorded with timestamps and checked against eight rules; the narrow publication windows are made certain by parking goroutines at hook sites; futures whose creating evaluation context is ended after completion; chains of up to 1000 nested futures; two simultaneous cancels of a running future with hundreds of derived contexts.",
              note="real-time order from one monotonic clock at the client boundary", ref="5/C10"),
  "C11": dict(technique="solo-vs-concurrent relational monitor + Go race detector (incl. futures created in nested scopes of scopes still being written, read-string of fresh names) + atomicity readers on one shared environment",
@@ -62,7 +62,7 @@ CHECKS = {
  "C19": dict(technique="multi-route relational monitor (text with/without module, position-less AST, re-read print, REPL form by form, do-wrapped, load-file) over layout variants",
              text="The same generated program is delivered through seven routes and several layouts; result, error class, final error text (positions removed) and trace must agree across all of them.",
              note="program value observed through a final trace! on routes whose return value is defined differently", ref="5/C19"),
- "C20": dict(technique="exhaustive contract table with entry monitors on harness-defined Go functions bound through lib/call (10 behaviours incl. five Go runtime panic kinds whose recovered value must stay reachable with errors.Is)",
+ "C20": dict(technique="exhaustive contract table with entry monitors on harness-defined Go functions bound through lib/call (10 behaviours incl. five Go runtime panic kinds whose recovered value must stay reachable with errors.Is; override names containing format verbs)",
              text="An enumerated table of signatures x declared bounds x entry points x import-path shapes x argument lists is executed; entry monitors record whether and with what the Go function was entered; results, errors and panics are compared with the contract; function values sharing their code (closures of one literal, method values of one method) registered under one name in several environments must each be the one invoked; four goroutines calling one binding concurrently must each see their own arguments and context.",
              note="signatures written out in the harness; declarations the binder rejects by design are excluded", ref="5/C20"),
 }
